@@ -129,6 +129,7 @@ def run(ctx):
     lines, pend = [], []
     for _ in range(ctx.n(60, 1500)):
         c0, info = scenes.mk_fits(rng)
+        w_in, w_pristine = scenes.LAST_FITS_INPUT
         hist = []
         for _k in range(rng.randint(1, 3)):
             if rng.random() < 0.7:
@@ -139,8 +140,20 @@ def run(ctx):
                 hist.append(('R', c02.gen_corr(rng, runit, big=rng.random() < 0.3), ref))
         case = {'kind': info['kind'], 'info': info, 'history': [h[0] for h in hist],
                 'corrs': [[h[1].M.tolist(), h[1].t.tolist()] for h in hist]}
-        ctx.case(case, nontrivial=True, branch='frame:' + info['kind'])
+        ctx.case(case, nontrivial=True, branch='frame:' + info['kind'] + (':' + info['lut'] if 'lut' in info else ''))
         before = snap(c0.wcs)
+        # the construction of the corrector: the WCS it works on is the WCS it was given (all distortions, every
+        # attribute), and the caller's object is untouched
+        p0 = snap(w_pristine)
+        p0['crval'] = w_pristine.wcs.crval.copy()
+        for label, ww in (('the WCS of the new corrector', c0.wcs), ("the caller's WCS object", w_in),
+                          ("the corrector's original_wcs", c0.original_wcs)):
+            s1 = snap(ww)
+            s1['crval'] = ww.wcs.crval.copy()
+            for k in p0:
+                if not (same(p0[k], s1[k]) if not isinstance(p0[k], (list, tuple)) else p0[k] == s1[k]):
+                    ctx.oracle_fail(case, {'what': 'constructing the corrector changed %s' % label, 'attribute': k,
+                                           'before': repr(p0[k])[:200], 'after': repr(s1[k])[:200]})
         crval0 = c0.wcs.wcs.crval.copy()
         c, _ = corrsim.apply_real(c0, hist)
         after = snap(c.wcs)
